@@ -596,8 +596,18 @@ Ltac insert_loops ps :=
                   rewrite W; clear W
               end ]
       end.
+(* the node at the index and the span of its subtree may be read in either order: both reads are pure and fail
+   with the same IndexError exactly when the index is out of range *)
+Ltac read_order :=
+  repeat match goal with
+         | E : nth_error ?l ?i = None, E1 : search_subtree ?l ?i = _ |- _ =>
+             rewrite (search_subtree_none l i E) in E1;
+             first [ discriminate E1 | inversion E1; subst; clear E1 ]
+         | E : nth_error ?l ?i = None |- context [search_subtree ?l ?i] =>
+             rewrite (search_subtree_none l i E)
+         end.
 Ltac insert_hook ps :=
-  span_slices; zfst_pairs; cbn [fst snd];
+  read_order; span_slices; zfst_pairs; cbn [fst snd];
   positions_list; rewrite ?d_choice_map;
   unfold len; rewrite ?list_mul_none_len, ?enumerate_from_0; unfold enumerate;
   insert_loops ps;
